@@ -224,11 +224,11 @@ def main(tier, seed):
     for r in pmap(work, specs, chunksize=2):
         rep.merge_worker("flows", r)
     rep.section("flows", None, scenarios=len(specs))
-    ex = Explorer()
+    ex = Explorer(max_paths=3000, budget_s=90)
     ex.run(make_body(specs[0], falsify=True))
     rep.witness("instruction streams with oracle 'template value != 200'", any(c.label == "instruction_streams" for c in ex.cexs))
 
     def one():
-        Explorer().run(make_body(specs[3]))
+        Explorer(max_paths=4, budget_s=30).run(make_body(specs[3]))
     rep.functions_encoded |= trace_functions(one)
     return rep.finish(replay)
